@@ -98,6 +98,14 @@ def main(argv=None):
                     tag = getattr(unit.kani, "tag", None)
                     for h in hs:
                         hr = kani_result.harnesses[h.name]
+                        if h.ignore and hr.status == "failed":
+                            # failed checks declared (with a justification) as artefacts of the tool's modelling
+                            keep = [c for c in hr.failed_checks if not any(re.search(rx, c["desc"] + " @ " + c.get("fn", "")) for rx, _ in h.ignore)]
+                            if len(keep) != len(hr.failed_checks):
+                                notes.append(f"kani[{h.name}]: {len(hr.failed_checks) - len(keep)} failed check(s) disregarded: " + "; ".join(j for _, j in h.ignore))
+                            if not keep:
+                                hr.status = "success"
+                            hr.failed_checks = keep
                         if tag and hr.status == "failed":
                             # assertions are tagged with the property whose statement they express; a harness shared by
                             # several properties raises an alarm only for the property its failed assertion belongs to
